@@ -124,7 +124,7 @@ Lemma stage2_eattrs c r : eattrs (stage2 c r) =
   if completes c r then amap (attr_expand (length (added_edges c r))) (with_hard (eattrs r) (zlen (edges r)))
   else eattrs r.
 Proof.
-  unfold stage2, completes, added_edges. destruct (snd c); cbn; [|apply stage1_eattrs].
+  unfold stage2, completes, added_edges. rewrite pv_eattrs. destruct (snd c); cbn; [|apply stage1_eattrs].
   rewrite cef_eattrs, stage1_faces, stage1_eattrs, stage1_edges, isnil_nonempty.
   destruct (nonempty _); reflexivity.
 Qed.
@@ -150,7 +150,7 @@ Lemma pe_attr_get c r a j i :
   nth_error (kept_idx (zlen (vertices r)) (edges r)) j = Some i ->
   attr_get (pe_attr (stage2 c r) a) (Z.of_nat j) = attr_get a i.
 Proof.
-  intros H. unfold pe_attr. rewrite stage2_vertices, stage2_edges.
+  intros H. unfold pe_attr. rewrite stage2_nverts, stage2_edges.
   destruct (existsb _ (edges r ++ added_edges c r)) eqn:E.
   - apply reindex_get. now apply kept_prefix.
   - apply existsb_app_false in E. unfold kept_idx in H. rewrite (kept_from_all _ _ _ E) in H.
@@ -235,7 +235,7 @@ Proof.
     set (N := zlen (vertices r)) in *. set (E := edges r) in *. set (A := added_edges c r) in *.
     assert (Hnd : nd = Z.of_nat (length (kept_from N 0 E))).
     { unfold nd, zlen. now rewrite filter_kedge_length, kept_from_length. }
-    unfold pe_attr. rewrite stage2_vertices, stage2_edges. fold N E A.
+    unfold pe_attr. rewrite stage2_nverts, stage2_edges. fold N E A.
     destruct (existsb _ (E ++ A)) eqn:Ex.
     + (* rebuilt *)
       assert (Hlen : zlen (edges r') = Z.of_nat (length (kept_idx N (E ++ A)))).
